@@ -186,3 +186,84 @@ Theorem C16_name_sites_agree : forall n,
     C16Gen.comp_match_name n = C16Gen.prefilter_tag_name n /\ C16Gen.comp_match_name n = C16Gen.prefilter_col_name n.
 Proof. exact name_sites_agree. Qed.
 Print Assumptions C16_name_sites_agree.
+
+(* ================================================================== extension: RDATE and rescheduled instances
+   Model/FilterExt.v is the model of visit_time_ranges for a VEVENT object made of one master (UTC DATE-TIME DTSTART,
+   DTEND | DURATION | neither, optional RRULE as above, RDATE list, EXDATE list) and override components (RECURRENCE-ID,
+   own DTSTART / DTEND) -- get_children (overrides first, master last with `recurrences`), getrruleset (filter on
+   `ignore`, infinite branch with infinity_fn), the VEVENT branch; Model/Rfc4791Ext.v is the specification: the
+   instance set ((rule instances + RDATE + DTSTART) - EXDATE - overridden) and 9.9 over it.  ALL well-formed objects,
+   ALL ranges, ANY fuel for which the model terminates (the fuel formulas xhull_fuel / xmatch_fuel are exercised by
+   the correspondence check and the Examples).  DATE values are not modelled (the pinned code never removes an
+   overridden all-day instance). *)
+Require Import RV.Model.FilterExt RV.Model.Rfc4791Ext RV.Proofs.C16Ext.
+
+(* (a) a recording visitor that never cancels receives exactly the ranges of the object: every surviving master
+   instance with the master's length, every override component with its own start and end -- nothing else *)
+Theorem C16_ext_visit_exact : forall o fuel l stop, wf_xevent o ->
+    xvisit rec_all no_infinity fuel o [] = Some (l, stop) ->
+    stop = false /\ forall c, In c l <-> xvisited o c.
+Proof. exact ext_visit_exact. Qed.
+Print Assumptions C16_ext_visit_exact.
+
+(* (b) find_time_range is the hull of those ranges: it encloses every one, a finite start is the start of one of them
+   and a finite end the end of one of them (min start, max end); for an unbounded rule the end is +infinity and the
+   start is the minimum over the override components and the first surviving master instance *)
+Theorem C16_ext_hull : forall o fuel istart iend, wf_xevent o ->
+    xfind_time_range fuel o = Some (istart, iend) ->
+    (forall c, xvisited o c -> xle istart (c_s c) = true /\ xle (c_e c) iend = true) /\
+    (xlt MInf istart = true -> exists c, xvisited o c /\ xlt (c_s c) (c_e c) = true /\ c_s c = istart) /\
+    (xlt iend PInf = true -> exists c, xvisited o c /\ xlt (c_s c) (c_e c) = true /\ c_e c = iend).
+Proof. exact ext_hull. Qed.
+Print Assumptions C16_ext_hull.
+
+(* (c) time_range_match: true iff some range of the object overlaps the query (the early stop on the ascending master
+   instances and the absence of an early stop on override components lose nothing) ... *)
+Theorem C16_ext_match_visited : forall o r fuel b, wf_xevent o -> tr_bounded r = true ->
+    xtime_range_match fuel o r = Some b ->
+    (b = true <-> exists c, xvisited o c /\ overlap (tr_start r) (tr_end r) c = true).
+Proof. exact ext_match_visited. Qed.
+Print Assumptions C16_ext_match_visited.
+
+(* ... which is RFC 4791 9.9 for VEVENT: some instance of the master satisfies the master's row, or some override
+   component satisfies its own row *)
+Theorem C16_ext_tables : forall o r fuel b, wf_xevent o -> tr_bounded r = true ->
+    xtime_range_match fuel o r = Some b -> (b = true <-> xrfc_overlaps o r).
+Proof. exact ext_match_rfc. Qed.
+Print Assumptions C16_ext_tables.
+
+Theorem C16_ext_unbounded_range : forall o fuel, xtime_range_match fuel o (None, None) = Some false.
+Proof. exact ext_unbounded_range. Qed.
+Print Assumptions C16_ext_unbounded_range.
+
+(* non-vacuity: two well-formed objects (bounded HOURLY rule + RDATE + EXDATE + a rescheduled instance; unbounded DAILY
+   rule whose first instance is rescheduled) on which the model terminates with the fuel formulas and gives the
+   expected ranges, hull and answers (the overridden instance does not match, the moved one does) *)
+Theorem C16_ext_nonvacuous : ext_nonvacuous_stmt.
+Proof. exact ext_nonvacuous. Qed.
+Print Assumptions C16_ext_nonvacuous.
+
+(* Total forms: with the explicit fuel formulas of Model/FilterExt.v (xhull_fuel: every RDATE and every candidate of a
+   bounded rule; xmatch_fuel / unbounded rules: every RDATE and the rule candidates up to the first one beyond the finite
+   bound of the range and beyond every EXDATE / RECURRENCE-ID, + 2) the model terminates, for ALL well-formed objects
+   and ALL ranges with a bound. *)
+Require Import RV.Proofs.C16ExtTerm.
+
+Theorem C16_ext_tables_total : forall o r fuel, wf_xevent o -> tr_bounded r = true -> (xmatch_fuel o r <= fuel)%nat ->
+    exists b, xtime_range_match fuel o r = Some b /\ (b = true <-> xrfc_overlaps o r).
+Proof. exact ext_match_total. Qed.
+Print Assumptions C16_ext_tables_total.
+
+Theorem C16_ext_hull_total : forall o fuel, wf_xevent o -> (xhull_fuel o <= fuel)%nat ->
+    exists istart iend, xfind_time_range fuel o = Some (istart, iend) /\
+      (forall c, xvisited o c -> xle istart (c_s c) = true /\ xle (c_e c) iend = true) /\
+      (xlt MInf istart = true -> exists c, xvisited o c /\ xlt (c_s c) (c_e c) = true /\ c_s c = istart) /\
+      (xlt iend PInf = true -> exists c, xvisited o c /\ xlt (c_s c) (c_e c) = true /\ c_e c = iend).
+Proof. exact ext_hull_total. Qed.
+Print Assumptions C16_ext_hull_total.
+
+(* bounded rule (or none): the never-cancelling recording visitor terminates, un-cancelled, with exactly the instances *)
+Theorem C16_ext_visit_total : forall o fuel, wf_xevent o -> xe_infinite o = false -> (xhull_fuel o <= fuel)%nat ->
+    exists l, xvisit rec_all no_infinity fuel o [] = Some (l, false) /\ forall c, In c l <-> xvisited o c.
+Proof. exact ext_visit_total. Qed.
+Print Assumptions C16_ext_visit_total.
